@@ -17,6 +17,9 @@ def run(rep, tier, seed, replay):
                 "a case-insensitive literal, or a class)")
     exprs = lib.inputs(rep, "C11", tier, seed, 2500, 30000, replay, trees=False, lits=["a", "b", "A", "é", "É", "ǆ", "ǅ", "1", ".", "..", "s", "ſ", "k", "K", "ß", "σ", "ς", "中", "x.y", "\\*"])
     if replay is None:
+        import gen as _gfc
+        exprs += [e for e in _gfc.flag_class_family() if e not in set(exprs)]
+    if replay is None:
         import gen as _gfs
         exprs += [e for e in _gfs.flag_scope_family() if e not in set(exprs)]
     # plus small invariant shapes
